@@ -30,7 +30,8 @@ def amf_cfg(cfg, strict=False):
                 k=cfg["k"], opc=cfg["opc"], gnb_gtp=cfg["gnb_gtp"], subscribers=subs, strict=strict,
                 sst=cfg.get("sst", 1), sd=cfg.get("sd", "010203"), **({"qos_lens": cfg["qos_lens"]} if "qos_lens" in cfg else {}),
                 **({"first_amf_id": cfg["first_amf_id"]} if "first_amf_id" in cfg else {}),
-                **({"flow_desc_len": cfg["flow_desc_len"]} if "flow_desc_len" in cfg else {}))
+                **({"flow_desc_len": cfg["flow_desc_len"]} if "flow_desc_len" in cfg else {}),
+                **({"exact16k": cfg["exact16k"]} if "exact16k" in cfg else {}))
 
 
 GARBAGE = b"\xff\xfe\xfd"
@@ -64,6 +65,14 @@ def classify_downlink(b):
 
 def make_garbage(kind, genuine):
     """bytes that are not a decodable NGAP PDU: fixed octets, or a truncation of the genuine answer"""
+    if kind == "minus1" and genuine and len(genuine) > 1:
+        # the genuine answer with its last octet missing
+        import perdec
+        try:
+            perdec.decode("ngapType.NGAPPDU", "valueExt,valueLB:0,valueUB:2", genuine[:-1])
+        except Exception:
+            return genuine[:-1]
+        return GARBAGE
     if kind == "fill":
         # undecodable octets that fill a 2048-octet receive buffer exactly / overflow it
         return b"\xff\xfe\xfd\xfc" * 512
